@@ -8,6 +8,13 @@ flat (`Spec/RoundTrip.lean`), writing it with the model's `saveJson` and reading
 the same views, and reseeds the generators above everything (the JSON half of C09's document level).
 The other configurations (embedded FULL / MINIMAL type systems, merged into or replacing the supplied one) are covered
 by the per-kind lemmas of C02, by `closure_sufficient` and per run by the correspondence check.
+
+Two hypotheses go beyond those of the XMI theorem; both are needed (counterexamples in the comments below):
+* `hjson` (`JsonFs`, `Spec/RoundTripJson.lean`): the names of the types and features of the written structures can be
+  carried by the format (no type name ending in `[]`, no feature name starting with `@`, `#`, `%`), and `begin`/`end` are
+  declared by `uima.tcas.Annotation` exactly for annotations;
+* `hids`: every indexed structure carries an id already in the heap that is handed to the writer (`Cas.add` assigns
+  one): the writer lists the members of the views *before* it assigns the missing ids.
 -/
 import CassisModel.Proofs.RoundTripJson
 
@@ -20,6 +27,8 @@ theorem json_roundtrip_flat (K : Consts) (ts : TypeSystem) (cass : List Cas) (ci
     (hc : cass[ci]? = some c) (hwf : RTWf c hp)
     (hsave : saveJson K ts cass ci hp .none = .ok (doc, st))
     (hflat : ∀ q ∈ st.allFs, FlatFs K ts c ci st.heap q.2)
+    (hjson : ∀ q ∈ st.allFs, JsonFs ts st.heap q.2)
+    (hids : ∀ nv ∈ c.views, ∀ e ∈ Index.all nv.2.idx, (xidOf hp e.oid).isSome = true)
     (hdis : ∀ q ∈ st.allFs, ∀ nv ∈ c.views, q.1 ≠ nv.2.sofa.xid)
     (hmem : ∀ nv ∈ c.views, ∀ e ∈ Index.all nv.2.idx, Xmi.slot st.heap e.oid "sofa" ≠ some .none)
     (hmok : MembersOk c st.heap) :
@@ -37,7 +46,7 @@ theorem json_roundtrip_flat (K : Consts) (ts : TypeSystem) (cass : List Cas) (ci
       -- generators reseeded
       (∀ q ∈ st.allFs, q.1 < ld.cas.nextXid) ∧
       (∀ nv ∈ c.views, nv.2.sofa.xid < ld.cas.nextXid ∧ nv.2.sofa.sofaNum < ld.cas.nextSofaNum) :=
-  json_roundtrip_flat_aux K ts cass ci c hp tsIdx ci' doc st hc hwf hsave hflat hdis hmem hmok
+  json_roundtrip_flat_aux K ts cass ci c hp tsIdx ci' doc st hc hwf hsave hflat hjson hids hdis hmem hmok
 
 /-- serialising the loaded CAS again yields the identical JSON document -/
 theorem json_roundtrip_flat_fixpoint (K : Consts) (ts : TypeSystem) (cass : List Cas) (ci : Nat) (c : Cas) (hp : Heap)
@@ -45,11 +54,13 @@ theorem json_roundtrip_flat_fixpoint (K : Consts) (ts : TypeSystem) (cass : List
     (hc : cass[ci]? = some c) (hwf : RTWf c hp)
     (hsave : saveJson K ts cass ci hp .none = .ok (doc, st))
     (hflat : ∀ q ∈ st.allFs, FlatFs K ts c ci st.heap q.2)
+    (hjson : ∀ q ∈ st.allFs, JsonFs ts st.heap q.2)
+    (hids : ∀ nv ∈ c.views, ∀ e ∈ Index.all nv.2.idx, (xidOf hp e.oid).isSome = true)
     (hdis : ∀ q ∈ st.allFs, ∀ nv ∈ c.views, q.1 ≠ nv.2.sofa.xid)
     (hmem : ∀ nv ∈ c.views, ∀ e ∈ Index.all nv.2.idx, Xmi.slot st.heap e.oid "sofa" ≠ some .none)
     (hmok : MembersOk c st.heap)
     (hload : loadJson K ts tsIdx cass.length false false st.heap doc = .ok ld) :
     ∃ st' : St, saveJson K ts (cass ++ [ld.cas]) cass.length ld.heap .none = .ok (doc, st') :=
-  json_roundtrip_flat_fixpoint_aux K ts cass ci c hp tsIdx doc st ld hc hwf hsave hflat hdis hmem hmok hload
+  json_roundtrip_flat_fixpoint_aux K ts cass ci c hp tsIdx doc st ld hc hwf hsave hflat hjson hids hdis hmem hmok hload
 
 end Cassis.Json
